@@ -16,6 +16,9 @@ import "io"
 
 const c12NumMethods = 20
 
+// c12Hammer is set by the optional file opt_c12hammer.go (it names the unexported mutex field).
+var c12Hammer func(m *MapPollard)
+
 func c12Name(i int) string {
 	switch i {
 	case 0:
@@ -82,9 +85,8 @@ func c12Call(m *MapPollard, method int, a *c12Args) {
 	switch method {
 	case -1:
 		// native replay partner for lock-discipline findings: a writer that keeps asking for the lock
-		for i := 0; i < 2000; i++ {
-			m.rwLock.Lock()
-			m.rwLock.Unlock()
+		if c12Hammer != nil {
+			c12Hammer(m)
 		}
 	case 0:
 		m.Modify(a.leaves, a.hashes, a.proof)
